@@ -86,6 +86,7 @@ def solve_case(s, cid, rail_rep=False, **kw):
     case = {"id": cid, "st": project(s), "args": args, "kw": {k: v for k, v in kw.items() if k not in ("tags",)}, "outcome": "ok", "exc": "", "msg": "",
             "table": {"cols": ["none"], "rows": [], "isnone": True},
             "rail": {"cols": ["none"], "rows": [], "isnone": True}, "hasrail": False, "railexc": "",
+            "has_design": False, "design": [],
             "has_slice": False, "slice_of": {"cols": ["none"], "rows": [], "isnone": True}}
     try:
         with warnings.catch_warnings():
